@@ -21,6 +21,7 @@ type FuncReport struct {
 	Vacuity []*Obligation // must NOT be unsat
 	Bound   bool
 	Callees map[string]bool // contracts assumed at call sites
+	Covers  []*Obligation   // clause antecedent reachability (thorough): vacuous iff unsat on every return path
 }
 
 func (w *World) newExec(fn *ssa.Function, spec *FuncSpec, beh *Behavior) *Exec {
@@ -167,6 +168,7 @@ func (w *World) verifyBehavior(rep *FuncReport, fn *ssa.Function, spec *FuncSpec
 		fr.Regs[p] = v
 		params[p.Name()] = v
 	}
+	w.aliasOld(fn, params)
 	ghosts := map[string]Value{}
 	for _, g := range beh.Ghost {
 		if g.Type == "Ord" {
@@ -239,6 +241,7 @@ func (w *World) verifyBehavior(rep *FuncReport, fn *ssa.Function, spec *FuncSpec
 			penv.vars[k] = v
 		}
 		bindResults(penv, fn, res)
+		w.aliasOld(fn, penv.vars)
 		for i, c := range beh.Ensures {
 			if c.Abstract {
 				x.assume("A-DET")
@@ -267,6 +270,24 @@ func (w *World) verifyBehavior(rep *FuncReport, fn *ssa.Function, spec *FuncSpec
 				} else {
 					x.oblige(st2, "post", name+"~outside["+kf.ID+"]", propsOf(c, beh, spec), Implies(g, t), "("+kf.Residual+") ==> ("+c.Text+")", w.pos(fn.Pos()))
 				}
+			}
+		}
+		if w.Covers && len(rep.Covers) < 400 {
+			// clause covers (thorough tier): an `A ==> B` clause proves nothing if A can never hold at a return
+			for i, c := range beh.Ensures {
+				if c.Abstract || c.E == nil || c.E.Kind != "bin" || c.E.Op != "==>" {
+					continue
+				}
+				a, err := penv.evalBool(c.E.Args[0])
+				if err != nil {
+					continue
+				}
+				label := c.Label
+				if label == "" {
+					label = fmt.Sprint(i)
+				}
+				rep.Covers = append(rep.Covers, &Obligation{Name: fmt.Sprintf("%s.cover[%s]", base, label), Kind: "cover", Text: c.E.Args[0].Src,
+					Facts: append(append(append([]*Term(nil), x.gfacts...), st2.Facts...), a), Goal: TFalse, Theory: x.theory, Func: spec.Key, Behavior: beh.Name})
 			}
 		}
 		if len(rep.Vacuity) < 48 {
